@@ -368,3 +368,35 @@ Proof.
   intros Hin Hb Hs W Hne. destruct (byname_is_write f e p stem b Hin Hb Hs) as [H1 H2].
   split; [exact H1|]. split; [exact H2|]. exact (byname_roundtrip f e p stem b Hin Hb Hs W Hne).
 Qed.
+
+Lemma univ_nl_ws_prefix t : forall n pre, length pre <= n -> forallb is_ws pre = true ->
+  exists pre', univ_nl (pre ++ GT :: t) = pre' ++ GT :: univ_nl t /\ forallb is_ws pre' = true /\ length pre' <= length pre.
+Proof.
+  induction n as [|n IH]; intros pre L W.
+  - destruct pre; [|cbn in L; lia]. exists []. cbn [app]. rewrite univ_nl_cons by reflexivity. repeat split; auto.
+  - destruct pre as [|c r].
+    + exists []. cbn [app]. rewrite univ_nl_cons by reflexivity. repeat split; auto.
+    + cbn [forallb] in W. apply andb_prop in W. destruct W as [Wc Wr]. cbn [length] in L.
+      cbn [app univ_nl]. destruct (byte_eqb c cr) eqn:Ec.
+      * destruct r as [|d r2].
+        { cbn [app]. change (byte_eqb GT nl) with false. cbv iota. 
+          exists [nl]. rewrite univ_nl_cons by reflexivity. repeat split; auto. }
+        { cbn [app]. cbn [forallb] in Wr. apply andb_prop in Wr. destruct Wr as [Wd Wr2]. cbn [length] in L.
+          destruct (byte_eqb d nl) eqn:Ed.
+          - destruct (IH r2 ltac:(lia) Wr2) as (p & E & Wp & Lp). exists (nl :: p). rewrite E. cbn [app forallb length].
+            rewrite Wp. repeat split; auto. lia.
+          - destruct (IH (d :: r2) ltac:(cbn [length]; lia)) as (p & E & Wp & Lp); [cbn [forallb]; rewrite Wd; exact Wr2|].
+            exists (nl :: p). cbn [app] in E. rewrite E. cbn [app forallb length] in *. rewrite Wp. repeat split; auto. lia. }
+      * destruct (IH r ltac:(lia) Wr) as (p & E & Wp & Lp). exists (c :: p). rewrite E. cbn [app forallb length]. rewrite Wc, Wp.
+        repeat split; auto. lia.
+Qed.
+(* leading whitespace of any kind (also CR, CRLF) inside the 50-character window does not matter to the FASTA sniffer *)
+Theorem fasta_sniff_leading_ws_any pre t : forallb is_ws pre = true -> length pre < 50 -> is_fasta (pre ++ GT :: t) = true.
+Proof.
+  intros Hw L. destruct (univ_nl_ws_prefix t (length pre) pre (le_n _) Hw) as (p & E & Wp & Lp).
+  unfold is_fasta, sniff_head. rewrite E. rewrite firstn_app. rewrite (firstn_all2 p) by lia.
+  destruct (50 - length p) as [|k] eqn:Ek; [lia|]. cbn [firstn].
+  unfold strip. rewrite lstrip_ws_app by exact Wp. rewrite lstrip_non_ws by reflexivity.
+  destruct (rstrip_non_ws_head GT (firstn k (univ_nl t)) eq_refl) as [r' Er]. rewrite Er.
+  unfold startswith. cbn [strip_prefix]. rewrite byte_eqb_refl. reflexivity.
+Qed.
